@@ -23,7 +23,7 @@ LEVEL_TEXT = (
     "lines, hex/non-hex end lines, escape runs, over-long runs) x fragmentations x {HDLC reader in 4 configurations, P1 reader, payload and "
     "message protocols with both candidate orders}; exceptions are attributed to the innermost han/ frame. Sampling, not proof."
 )
-RUNS = {"quick": 20000, "thorough": 1500000}
+RUNS = {"quick": 20000, "thorough": 600000}
 CHUNK = {"quick": 300, "thorough": 2000}
 BUDGET_S = {"quick": 90, "thorough": 1500}
 RULE = (
